@@ -15,6 +15,7 @@ def run(ctx):
     ctx.run(O.flw7_catalogue_lookups_on_query_path)
     ctx.run(L.flw22_busy_flag_released)
     ctx.run(O.ord17_loaded_mark_after_handles)
+    ctx.run(O.pan6_cold_load_failures_are_values)
     return ctx.finish(
         'Static lock analysis over compiler MIR (guard birth/transfer/death, must-hold sets per '
         'program point): the snapshot reads buffer, frozen buffer and partition map under all '
